@@ -217,6 +217,49 @@ def exn_code(e) -> int:
     return EXN_CODES.get(type(e).__name__, 19)
 
 
+def observe_tree(t, Token):
+    """What the harness reads of a TokenTree.  Public surface: `elements` (dict hash -> Token) and
+    get_missing().  The waiting tokens are internal: they are collected from whatever container
+    `unchained` is (Token objects found as keys, values or inside nested containers), cross-checked against
+    get_missing(), and reported as None ("not observable") when that fails - never an exception."""
+    notes = []
+    try:
+        e = [(bytes(k), (v.previous_token_hash, v.content_hash, v.signature), v.content) for k, v in t.elements.items()]
+    except Exception as ex:   # noqa: BLE001
+        e = []
+        notes.append("elements unreadable: %s" % type(ex).__name__)
+    try:
+        miss = frozenset(bytes(m) for m in t.get_missing())
+    except Exception as ex:   # noqa: BLE001
+        miss = ("raise", type(ex).__name__)
+    u = None
+    try:
+        found, seen = [], set()
+
+        def walk(x, depth):
+            if isinstance(x, Token):
+                if id(x) not in seen:
+                    seen.add(id(x))
+                    found.append(x)
+            elif depth < 4 and isinstance(x, dict):
+                for k, v in list(x.items()):
+                    walk(k, depth + 1)
+                    walk(v, depth + 1)
+            elif depth < 4 and (isinstance(x, (list, tuple, set, frozenset)) or type(x).__name__ == "deque"):
+                for y in list(x):
+                    walk(y, depth + 1)
+
+        walk(getattr(t, "unchained"), 0)
+        u = [((x.previous_token_hash, x.content_hash, x.signature), x.content) for x in found]
+        if isinstance(miss, frozenset) and {f[0] for (f, _c) in u} != set(miss):
+            notes.append("waiting tokens found in `unchained` do not account for get_missing()")
+            u = None
+    except Exception as ex:   # noqa: BLE001
+        notes.append("waiting area not readable: %s" % type(ex).__name__)
+        u = None
+    return {"e": e, "u": u, "miss": miss, "notes": notes}
+
+
 def run_impl(c):
     """Run the case on the real TokenTree.  Returns the raw record used by the oracle and by the
     canonical flattening."""
@@ -229,8 +272,7 @@ def run_impl(c):
     tree.unchained_max_size = c["cap"]
 
     def snap(t):
-        return ([(k, (v.previous_token_hash, v.content_hash, v.signature), v.content) for k, v in t.elements.items()],
-                [((u.previous_token_hash, u.content_hash, u.signature), u.content) for u in t.unchained])
+        return observe_tree(t, Token)
 
     steps = []
     for op in c["ops"]:
@@ -254,11 +296,7 @@ def run_impl(c):
             except Exception as e:   # noqa: BLE001
                 res = ("raise", type(e).__name__, exn_code(e))
         steps.append({"res": res, "offered": offered, "state": snap(tree)})
-    fin = {"genesis": tree.genesis_hash, "siglen": siglen}
-    try:
-        fin["missing"] = tree.get_missing()
-    except Exception as e:   # noqa: BLE001
-        fin["missing"] = ("raise", type(e).__name__)
+    fin = {"genesis": sha3(c["pk"]), "siglen": siglen}
     probes = []
     for f in c["pool"]:
         row = []
@@ -272,7 +310,11 @@ def run_impl(c):
                 row.append(("raise", type(e).__name__))
         probes.append(row)
     fin["probes"] = probes
-    fin["dump"] = tree.serialize_public()
+    try:
+        fin["dump"] = bytes(tree.serialize_public())
+    except Exception as e:   # noqa: BLE001
+        fin["dump"] = b""
+        fin["dump_raised"] = type(e).__name__
     upto = []
     for f in c["pool"]:
         t = Token(f[0], content_hash=f[1], signature=f[2])
@@ -293,7 +335,13 @@ def run_impl(c):
 
 
 # ---------------------------------------------------------------------------- canonical flattening (both sides)
+def waiting_observable(run):
+    sts = [s["state"] for s in run["steps"]] + [run["final"]["state"], run["final"]["reload_state"]]
+    return all(st["u"] is not None for st in sts)
+
+
 def flatten(c, run, ren: Ren):
+    waiting = waiting_observable(run)
     pool_ix = {}
     for i, f in enumerate(c["pool"]):
         pool_ix.setdefault(f[0] + f[1] + f[2], i)    # equality of tokens = equal signed bytes
@@ -305,18 +353,24 @@ def flatten(c, run, ren: Ren):
         return [pool_ix.get(f[0] + f[1] + f[2], len(c["pool"])),
                 -1 if content is None else cont_ix.get(content, len(c["contents"]))]
 
-    def enc_state(st):
-        e, u = st
-        out = [len(e)]
-        for (_k, f, ct) in e:
-            out += enc_tok(f, ct)
-        out.append(len(u))
-        for (f, ct) in u:
-            out += enc_tok(f, ct)
-        return out
-
     def enc_bytes(b):
         return [len(b)] + list(b)
+
+    def enc_state(st):
+        out = [len(st["e"])]
+        for (_k, f, ct) in st["e"]:
+            out += enc_tok(f, ct)
+        miss = st["miss"] if isinstance(st["miss"], frozenset) else frozenset()
+        ms = sorted(ren.h(m) for m in miss)          # a set: canonical order
+        out.append(len(ms))
+        for m in ms:
+            out += enc_bytes(m)
+        if waiting:
+            us = sorted(tuple(enc_tok(f, ct)) for (f, ct) in st["u"])   # internal: compared as a set
+            out.append(len(us))
+            for x in us:
+                out += list(x)
+        return out
 
     def enc_res(res):
         if res[0] == "none":
@@ -334,18 +388,11 @@ def flatten(c, run, ren: Ren):
             flat += enc_state(st["state"])
     fin = run["final"]
     flat += enc_state(fin["state"])
-    # get_missing: a set; ordered by first occurrence among the waiting tokens' pointers
-    miss = fin["missing"]
-    order = []
-    for (f, _ct) in fin["state"][1]:
-        if f[0] not in order:
-            order.append(f[0])
-    ms = [m for m in order if m in miss] + sorted(m for m in miss if m not in order)
-    flat.append(len(ms))
-    for m in ms:
-        flat += enc_bytes(ren.h(m))
     for row in fin["probes"]:
         for (v, p) in row:
+            if v == "raise":
+                flat += [98]
+                continue
             flat.append(1 if v is True else 0 if v is False else 99)
             flat.append(len(p))
             for (f, ct) in p:
@@ -360,7 +407,7 @@ def flatten(c, run, ren: Ren):
     return flat
 
 
-def case_to_coq(c, ren: Ren, valid_of, hash_of):
+def case_to_coq(c, ren: Ren, valid_of, hash_of, waiting=True):
     """the model's input: widths, key, SHA3 table, valid (plaintext, signature) pairs, pools, ops"""
     pool = c["pool"]
     # tokens parsed out of unserialize inputs are part of the tables as well
@@ -386,7 +433,7 @@ def case_to_coq(c, ren: Ren, valid_of, hash_of):
             ops.append("OGather %s %s" % (nid(op[1]), "None" if op[2] is None else "(Some %s)" % nid(op[2])))
         else:
             ops.append("OUnser %s" % zl(ren.dump(op[1])))
-    return "(mkCase %s %s %s [%s] [%s] %s [%s] [%s] [%s] %s [%s])" % (
+    return "(mkCase %s %s %s [%s] [%s] %s [%s] [%s] [%s] %s %s [%s])" % (
         nid(ren.hl), nid(ren.sl), zl(ren.pk(c["pk"])),
         ";".join("(%s,%s)" % (zl(a), zl(b)) for a, b in htbl),
         ";".join("(%s,%s)" % (zl(a), zl(b)) for a, b in vtbl),
@@ -395,6 +442,7 @@ def case_to_coq(c, ren: Ren, valid_of, hash_of):
         ";".join(zl(ren.c(b)) for b in c["contents"]),
         ";".join(zid(d) for d in c["depths"]),
         "true" if c["trace"] else "false",
+        "true" if waiting else "false",
         ";".join(ops))
 
 
@@ -423,8 +471,11 @@ def oracle(c, run):
         return c.get("kinds", {}).get(i, "parsed") if i is not None else "parsed"
 
     def check_sound(state, offered_fields, where):
-        e, u = state
+        e, u, miss = state["e"], state["u"], state["miss"]
         ekeys = {k for (k, _f, _c) in e}
+        for note in state["notes"]:
+            if note.startswith("elements unreadable"):
+                report("exception/elements-unreadable", "%s: %s" % (where, note))
         for (k, f, ct) in e:
             if k != thash(f):
                 report("sound/key-is-not-token-hash", "%s: element stored under a key that is not its hash" % where)
@@ -437,15 +488,24 @@ def oracle(c, run):
                 report("sound/dangling-element", "%s: element %s.. has no contained predecessor" % (where, thash(f).hex()[:12]))
             if ct is not None and sha3(ct) != f[1]:
                 report("content/not-bound-to-pointer", "%s: element carries content that does not hash to its content pointer" % where)
-        for (f, ct) in u:
+        for (f, ct) in (u or []):
             if not valid(f):
                 report("waiting/invalid-signature", "%s: a token with a bad signature sits in the waiting area" % where)
             if f not in offered_fields:
                 report("waiting/never-offered", "%s: a waiting token was never offered" % where)
             if ct is not None and sha3(ct) != f[1]:
                 report("content/not-bound-to-pointer", "%s: waiting token carries content that does not hash to its pointer" % where)
-        if len(u) > max(c["cap"], 0):
+        if u is not None and len(u) > max(c["cap"], 0):
             report("waiting/over-capacity", "%s: %d tokens waiting, capacity %d" % (where, len(u), c["cap"]))
+        # the public view of the waiting area: get_missing()
+        if isinstance(miss, tuple):
+            report("exception/%s" % miss[1], "%s: get_missing raised %s" % (where, miss[1]))
+        else:
+            if len(miss) > max(c["cap"], 0):
+                report("waiting/over-capacity", "%s: %d hashes missing, capacity %d" % (where, len(miss), c["cap"]))
+            awaited = {f[0] for f in offered_fields if valid(f)}
+            if not miss <= awaited:
+                report("missing/wrong-set", "%s: get_missing reports a hash no validly signed offered token points to" % where)
         return ekeys
 
     def closure(fields):
@@ -496,11 +556,19 @@ def oracle(c, run):
                 if missing:
                     report("complete/offered-chain-token-missing",
                            "%s: %d validly signed token(s) connected to genesis through offered tokens are not elements "
-                           "(%d elements, %d waiting)" % (where, len(missing), len(ekeys), len(st["state"][1])))
+                           "(%d elements, %d hashes reported missing)" % (
+                               where, len(missing), len(ekeys), len(st["state"]["miss"]) if isinstance(st["state"]["miss"], frozenset) else -1))
                 else:
                     report("complete/extra-element", "%s: elements outside the closure of the offered tokens" % where)
+            expect_missing = {f[0] for f in distinct_valid if thash(f) not in want}
+            if isinstance(st["state"]["miss"], frozenset) and set(st["state"]["miss"]) != expect_missing:
+                report("missing/wrong-set", "%s: get_missing() has %d hashes, the offered tokens still waiting point to %d" % (
+                    where, len(st["state"]["miss"]), len(expect_missing)))
         if unexpected is None and res[0] != "raise":
-            for (f, _ct) in st["state"][1]:
+            for h in (st["state"]["miss"] if isinstance(st["state"]["miss"], frozenset) else ()):
+                if h in ekeys or h == genesis:
+                    report("waiting/ready-token-left-waiting", "%s: a hash reported missing is an element" % where)
+            for (f, _ct) in (st["state"]["u"] or []):
                 if f[0] in ekeys or f[0] == genesis:
                     report("waiting/ready-token-left-waiting", "%s: a waiting token's predecessor is an element" % where)
         # returned token of gather_token
@@ -514,11 +582,13 @@ def oracle(c, run):
             ct = c["contents"][op[2]]
             f = c["pool"][op[1]]
             if sha3(ct) != f[1]:
-                for (_k, g, gc) in st["state"][0]:
+                for (_k, g, gc) in st["state"]["e"]:
                     if g == f and gc == ct:
                         report("content/not-bound-to-pointer", "%s: wrong content was attached" % where)
     fin = run["final"]
-    e, u = fin["state"]
+    e = fin["state"]["e"]
+    if "dump_raised" in fin:
+        report("exception/%s" % fin["dump_raised"], "serialize_public raised %s" % fin["dump_raised"])
     emap = {k: (f, ct) for (k, f, ct) in e}
     # verify / get_root_path: the oracle's own walk
     for f, row in zip(c["pool"], fin["probes"]):
@@ -565,12 +635,8 @@ def oracle(c, run):
     if wire:
         if fin["reload"] != ("bool", True):
             report("roundtrip/reload-not-true", "unserialize_public(serialize_public()) into a fresh tree gave %r" % (fin["reload"][:2],))
-        if {k for (k, _f, _c) in fin["reload_state"][0]} != set(emap):
-            report("roundtrip/elements-differ", "reloaded tree has %d elements, original %d" % (len(fin["reload_state"][0]), len(e)))
-    if isinstance(fin["missing"], tuple):
-        report("exception/%s" % fin["missing"][1], "get_missing raised")
-    elif set(fin["missing"]) != {f[0] for (f, _c) in u}:
-        report("missing/wrong-set", "get_missing differs from the waiting tokens' pointers")
+        if {k for (k, _f, _c) in fin["reload_state"]["e"]} != set(emap):
+            report("roundtrip/elements-differ", "reloaded tree has %d elements, original %d" % (len(fin["reload_state"]["e"]), len(e)))
     return bad
 
 
@@ -579,7 +645,7 @@ def shuffled_reload(c, run, r):
     from ipv8.attestation.tokentree.tree import TokenTree
     from ipv8.keyvault.crypto import ECCrypto
     fin = run["final"]
-    e = fin["state"][0]
+    e = fin["state"]["e"]
     if not e or len(e) > c["cap"] or any(len(f[1]) != 32 for (_k, f, _c) in e):
         return []
     ch = 64 + fin["siglen"]
@@ -861,34 +927,69 @@ def gen_odd_widths(w, r):
 
 # ---------------------------------------------------------------------------- per-case work (runs in worker processes)
 def process(c):
-    run = run_impl(c)
-    bad = oracle(c, run)
+    """implementation run + oracle + rendering for the model; never raises: harness trouble is returned
+    in "errors" and becomes a broken correspondence, the oracle's findings are returned regardless"""
+    import traceback
+    out = {"coq": None, "bad": [], "errors": [], "waiting": True, "notes": [],
+           "summary": {"ops": len(c["ops"]), "elements": 0, "max_waiting": 0, "label": c["label"], "struct_errors": 0},
+           "keys": None}
+    try:
+        run = run_impl(c)
+    except Exception:   # noqa: BLE001
+        out["errors"].append("implementation run failed in the harness: " + traceback.format_exc()[-1200:])
+        return out
+    try:
+        out["bad"] = oracle(c, run)
+    except Exception:   # noqa: BLE001
+        out["errors"].append("oracle failed: " + traceback.format_exc()[-1200:])
     fin = run["final"]
-    ren = Ren(c["mode"], fin["siglen"], len(c["pool"]) + sum(len(o[1]) // (64 + fin["siglen"]) for o in c["ops"] if o[0] == "u"))
-    from ipv8.keyvault.crypto import ECCrypto
-    crypto = ECCrypto()
-    pk = crypto.key_from_public_bin(c["pk"])
-    coq_case = case_to_coq(c, ren, lambda f: bool(crypto.is_valid_signature(pk, f[0] + f[1], f[2])), thash)
-    flat = flatten(c, run, ren)
-    ne, nu = len(fin["state"][0]), max([len(s["state"][1]) for s in run["steps"]] or [0])
-    summary = {"ops": len(c["ops"]), "elements": ne, "max_waiting": nu, "label": c["label"],
-               "struct_errors": sum(1 for s in run["steps"] if s["res"][0] == "raise" and s["res"][1] == "error")}
-    return coq_case, zl(flat), bad, summary, run
+    sts = [s_["state"] for s_ in run["steps"]] + [fin["state"], fin["reload_state"]]
+    out["notes"] = sorted({n for st in sts for n in st["notes"]})
+    out["waiting"] = waiting_observable(run)
+    out["keys"] = sorted(k.hex() for (k, _f, _c) in fin["state"]["e"])
+    out["summary"].update({
+        "elements": len(fin["state"]["e"]),
+        "max_waiting": max([len(s_["state"]["miss"]) if isinstance(s_["state"]["miss"], frozenset) else 0
+                            for s_ in run["steps"]] or [0]),
+        "struct_errors": sum(1 for s_ in run["steps"] if s_["res"][0] == "raise" and s_["res"][1] == "error")})
+    try:
+        ren = Ren(c["mode"], fin["siglen"],
+                  len(c["pool"]) + sum(len(o[1]) // (64 + fin["siglen"]) for o in c["ops"] if o[0] == "u"))
+        from ipv8.keyvault.crypto import ECCrypto
+        crypto = ECCrypto()
+        pk = crypto.key_from_public_bin(c["pk"])
+        coq_case = case_to_coq(c, ren, lambda f: bool(crypto.is_valid_signature(pk, f[0] + f[1], f[2])), thash,
+                               waiting=out["waiting"])
+        out["coq"] = (coq_case, zl(flatten(c, run, ren)))
+    except Exception:   # noqa: BLE001
+        out["errors"].append("rendering for the model failed: " + traceback.format_exc()[-1200:])
+    return out
 
 
 def process_light(c):
-    a, b_, bad, summary, _run = process(c)
-    return a, b_, bad, summary
+    return process(c)
 
 
 def oracle_only(c):
-    run = run_impl(c)
-    return oracle(c, run), sorted(k for (k, _f, _c) in run["final"]["state"][0]), len(c["ops"])
+    o = process_noncoq(c)
+    return o["bad"], o["keys"], len(c["ops"]), o["errors"]
+
+
+def process_noncoq(c):
+    import traceback
+    out = {"bad": [], "keys": None, "errors": []}
+    try:
+        run = run_impl(c)
+        out["keys"] = sorted(k.hex() for (k, _f, _c) in run["final"]["state"]["e"])
+        out["bad"] = oracle(c, run)
+    except Exception:   # noqa: BLE001
+        out["errors"].append("harness failed: " + traceback.format_exc()[-1200:])
+    return out
 
 
 def final_keys(c):
-    run = run_impl(c)
-    return sorted(k.hex() for (k, _f, _c) in run["final"]["state"][0]), oracle(c, run)
+    o = process_noncoq(c)
+    return o["keys"], o["bad"]
 
 
 def case_size(c):
@@ -901,11 +1002,18 @@ def case_size(c):
 def replay_cases(cases, verbose=False):
     rc, out = 0, []
     for c in cases:
-        run = run_impl(c)
-        bad = oracle(c, run)
+        try:
+            run = run_impl(c)
+            bad = oracle(c, run)
+        except Exception as ex:   # noqa: BLE001
+            print("case %r: the harness could not observe the implementation: %r" % (c["label"], ex))
+            out.append([("harness", repr(ex))])
+            rc = 1
+            continue
         if verbose:
-            e, u = run["final"]["state"]
-            print("case %r: %d operations -> %d elements, %d waiting; reload=%r" % (
+            e = run["final"]["state"]["e"]
+            u = run["final"]["state"]["miss"] if isinstance(run["final"]["state"]["miss"], frozenset) else ()
+            print("case %r: %d operations -> %d elements, %d hashes reported missing; reload=%r" % (
                 c["label"], len(c["ops"]), len(e), len(u), run["final"]["reload"][:2]))
             for k, wh in bad:
                 print("  VIOLATES %s :: %s" % (k, wh))
@@ -923,8 +1031,11 @@ def run(ctx):
         js = json.load(open(path))
         for cj in js.get("cases", []):
             c = case_from_json(cj)
-            for k, wh in oracle(c, run_impl(c)):
+            o = process_noncoq(c)
+            for k, wh in o["bad"]:
                 ctx.violation(k, "corpus %s: %s" % (os.path.basename(path), wh), cj)
+            for e in o["errors"]:
+                ctx.broke("corpus replay: harness could not observe the implementation (%s)" % os.path.basename(path), e)
             ctx.count(("corpus", path, cj["label"]))
     # ---- stage P
     ctx.proofs()
@@ -978,11 +1089,20 @@ def run(ctx):
     # ---- run on the implementation + oracle (parallel), render for Coq
     with multiprocessing.Pool(12) as pool:
         results = pool.map(process_light, cases, chunksize=32)
-    coq_cases = []
+    coq_cases, coq_ix = [], []      # coq_ix: index into `cases` of every rendered case
     viol = {}
     dist = {"ops": 0, "elements": 0, "waited": 0, "struct_errors": 0}
-    for idx, (c, (cc, exp, bad, summ)) in enumerate(zip(cases, results)):
-        coq_cases.append((cc, exp))
+    harness_errors, unobservable, shape_notes = [], 0, set()
+    for idx, (c, res) in enumerate(zip(cases, results)):
+        bad, summ = res["bad"], res["summary"]
+        if res["coq"] is not None:
+            coq_cases.append(res["coq"])
+            coq_ix.append(idx)
+        for e in res["errors"]:
+            harness_errors.append((c["label"], e))
+        if not res["waiting"]:
+            unobservable += 1
+        shape_notes.update(res["notes"])
         ctx.count((c["label"], c["mode"], idx), nontrivial=summ["ops"] > 0)
         dist["ops"] += summ["ops"]
         dist["elements"] += summ["elements"]
@@ -997,9 +1117,9 @@ def run(ctx):
         distinct_valid = len(c0["pool"])
         if distinct_valid > c0["cap"]:
             continue
-        keysets = [final_keys(cases[i])[0] for i in g]
+        keysets = [results[i]["keys"] for i in g]
         for i, ks in zip(g, keysets):
-            if ks != keysets[0]:
+            if ks is not None and keysets[0] is not None and ks != keysets[0]:
                 k = "order/result-depends-on-arrival-order"
                 if k not in viol or case_size(cases[i]) < case_size(viol[k][1]):
                     viol[k] = ("two arrival orders of the same %d offers end with %d and %d elements" % (
@@ -1013,8 +1133,10 @@ def run(ctx):
         extra += cs
     with multiprocessing.Pool(12) as pool:
         eres = pool.map(oracle_only, extra, chunksize=16)
-    for c, (bad, _ks, nops) in zip(extra, eres):
+    for c, (bad, _ks, nops, errs_) in zip(extra, eres):
         ctx.count((c["label"], "oracle-only", nops), nontrivial=True)
+        for e in errs_:
+            harness_errors.append((c["label"], e))
         for k, wh in bad:
             if k not in viol or case_size(c) < case_size(viol[k][1]):
                 viol[k] = (wh, c)
@@ -1022,7 +1144,7 @@ def run(ctx):
         if len(extra[g[0]]["pool"]) > extra[g[0]]["cap"]:
             continue
         for i in g[1:]:
-            if eres[i][1] != eres[g[0]][1]:
+            if eres[i][1] is not None and eres[g[0]][1] is not None and eres[i][1] != eres[g[0]][1]:
                 k = "order/result-depends-on-arrival-order"
                 if k not in viol or case_size(extra[i]) < case_size(viol[k][1]):
                     viol[k] = ("two arrival orders of the same %d offers end with %d and %d elements" % (
@@ -1030,9 +1152,21 @@ def run(ctx):
     ctx.extra["oracle_only_cases"] = len(extra)
     # shuffled public dumps
     for c in cases[:n_exh:7] + [cases[g[0]] for g in groups]:
-        for k, wh in shuffled_reload(c, run_impl(c), r):
+        try:
+            found = shuffled_reload(c, run_impl(c), r)
+        except Exception as ex:   # noqa: BLE001
+            harness_errors.append((c["label"], "shuffled reload: %r" % ex))
+            found = []
+        for k, wh in found:
             if k not in viol or case_size(c) < case_size(viol[k][1]):
                 viol[k] = (wh, c)
+    # harness trouble and unexpected internal shapes: the correspondence is broken, never a crash
+    for (label, e) in harness_errors[:5]:
+        ctx.broke("correspondence: the harness could not observe the implementation on case %r" % label, e)
+    if unobservable or shape_notes:
+        ctx.broke("correspondence: the waiting area of TokenTree does not have a shape the harness can read "
+                  "(%d cases compared on the public surface only: elements, get_missing, verify, get_root_path, dumps)" % unobservable,
+                  "; ".join(sorted(shape_notes)))
     for k, (wh, c) in sorted(viol.items()):
         ctx.violation(k, "%s [case %s, %d operations]" % (wh, c["label"], len(c["ops"])), case_to_json(c))
     for c in (cases[n_exh - 1], cases[n_exh + 3], cases[groups[0][0]]):
@@ -1049,11 +1183,12 @@ def run(ctx):
                                         ctype="case * list Z", shard=60 if ctx.quick else 120, jobs=12, timeout=900)
     for e in errs[:5]:
         ctx.broke("model evaluation failed", e)
-    for i in mism[:8]:
-        detail = {"label": cases[i]["label"], "mode": cases[i]["mode"], "impl_flat": coq_cases[i][1][:600],
+    for j in mism[:8]:
+        i = coq_ix[j]
+        detail = {"label": cases[i]["label"], "mode": cases[i]["mode"], "impl_flat": coq_cases[j][1][:600],
                   "case": case_to_json(cases[i])}
-        if i == mism[0]:
-            detail["model_flat"] = coqrun.eval_terms(IMPORTS, ["run_case %s" % coq_cases[i][0]], os.path.join(ctx.scratch, "dbg"))[-1500:]
+        if j == mism[0]:
+            detail["model_flat"] = coqrun.eval_terms(IMPORTS, ["run_case %s" % coq_cases[j][0]], os.path.join(ctx.scratch, "dbg"))[-1500:]
         ctx.broke("correspondence: model and implementation differ on case %r" % cases[i]["label"], json.dumps(detail)[:3900])
     ctx.coverage["traces_validated_against_impl"] += len(coq_cases) - len(mism)
     ctx.coverage["rule"] = (
